@@ -1,3 +1,37 @@
-(** C30 — placeholder while the proofs are written *)
-From SGV Require Import Base.Tactics Smpi.Datatype.
+(** C30 — Derived datatypes have the MPI layout and transfer exactly their bytes.
+    Only statements; proofs live in SGV.Smpi.DatatypeProofs / DatatypeProofs2.
+    [sem_of t] is the MPI-3.1 type map of the tree t with its lb/ub (Smpi/Datatype.v part 2), [build t] the C++ object
+    built by Datatype::create_* and [cser] the bytes visited by serialize/unserialize (part 3). *)
+From SGV Require Import Base.Tactics Smpi.Datatype Smpi.DatatypeProofs Smpi.DatatypeProofs2.
 Local Open Scope Z_scope.
+
+(* size, lower bound, upper bound (hence extent) of the object are those of the type map, for trees of any depth
+   built with contiguous, vector, hvector, indexed, hindexed, indexed_block, struct, resized and subarray *)
+Theorem C30_layout : forall t, wf t ->
+  csize (build t) = tmsize (tm (sem_of t)) /\ clb (build t) = slb (sem_of t) /\ cub (build t) = sub (sem_of t).
+Proof. exact layout_correct. Qed.
+Print Assumptions C30_layout.
+
+(* serialize (pack, send) reads and unserialize (unpack, receive) writes exactly the bytes of [count] copies of the
+   type map placed one extent apart, in type-map order: same list, so no other byte is touched *)
+Theorem C30_bytes : forall t base count, wf t -> 0 <= count ->
+  cser (build t) base count = sbytes (sem_of t) base count.
+Proof. exact bytes_correct. Qed.
+Print Assumptions C30_bytes.
+
+(* the formula of the pinned code for the end of a block of bl old elements (d + bl*ub_old) is not the type map's:
+   witness = a block of 2 copies of a type with lb 4, ub 8 (indexed(1 int at index 1)) *)
+Theorem C30_pinned_block_ub_refuted : exists bl d s,
+  1 <= bl /\ 0 <= sext s /\ pinned_block_ub bl d (sub s) <> sub (replicate (blockds d (sext s) bl) s).
+Proof. exact pinned_ub_refuted. Qed.
+Print Assumptions C30_pinned_block_ub_refuted.
+
+(* the hypotheses hold on a non-trivial tree of depth 3: struct { 2 x vector(2,1,3) of indexed({1,2},{1,4}) of int at 8 ;
+   1 x subarray(C, (4,2,1)(3,2,0)) of short at 0 }, and the answers are not the trivial ones *)
+Example C30_nonvacuous :
+  let t := Struct (FCons 2 8 (Vector 2 1 3 (Indexed [(1, 1); (2, 4)] (Basic 4)))
+                  (FCons 1 0 (Subarray true [(4, 2, 1); (3, 2, 0)] (Basic 2)) FNil)) in
+  (1 <= 2 /\ (1 <= 2 /\ 1 <= 1 /\ 0 <= 3 /\ [(1, 1); (2, 4)] <> [] /\ Forall (fun b => 1 <= fst b) [(1, 1); (2, 4)] /\ 0 < 4)) /\
+  csize (build t) = 56 /\ clb (build t) = 0 /\ cub (build t) = 180 /\
+  firstn 6 (cser (build t) 0 2) = [12; 13; 14; 15; 24; 25].
+Proof. cbn zeta. repeat split; try lia; try congruence; try (repeat constructor; cbn; lia); vm_compute; reflexivity. Qed.
